@@ -156,6 +156,74 @@ def table_target(cls, avail, top):
     return (avail if cls[0] == 'a' else top) + int(cls[1:])
 
 
+# register prefixes (skool-files.rst, register sections: "colon-terminated prefixes (such as 'Input:' and 'Output:',
+# or simply 'I:' and 'O:')"; "If a register's prefix begins with the letter 'O', it is regarded as an output value;
+# if it begins with any other letter, it is regarded as an input value. If a register has no prefix, it will be
+# placed in the same table as the previous register; if there is no previous register, [...] input values")
+IN_FORMS = ['Input', 'In', 'I', 'Inp', 'IN', 'Ix', 'Inputs', 'i', 'in', 'input']
+OUT_FORMS = ['Output', 'Out', 'O', 'OUT', 'Ox', 'Outputs', 'o', 'out', 'output']
+OTHER_FIRST = [c for c in 'ABCDEFGHIJKLMNOPQRSTUVWXYZabcdefghijklmnopqrstuvwxyz' if c not in 'IiOo']
+OTHER_WORDS = ['Entry', 'Exit', 'Foo', 'Arg', 'Returns', 'Uses', 'nO', 'no', 'Zo', 'xO', 'A', 'z', 'Preserved', 'entry']
+PREFIX_TAIL = 'abcdefghijklmnopqrstuvwxyzABCDEFGHIJKLMNOPQRSTUVWXYZ0123456789'
+# families a free style draws its prefixes from (i: I*, o: O*, x: any other first letter)
+FREE_STYLES = {'other': 'x', 'other-out': 'xxo', 'any': 'iox', 'io-forms': 'io'}
+REG_STYLES = ['none', 'long', 'short', 'mixed', 'other', 'other-out', 'any', 'io-forms']
+
+
+PREFIX_CLASSES = ['non-io', 'non-io-upper', 'non-io-lower', 'non-io-one-letter', 'unprefixed-after-non-io',
+                  'non-io-after-output', 'io-other-form', 'io-lower', 'unprefixed-first', 'back-to-input',
+                  'prefix-change', 'family-change']
+
+
+def html_order(regs, lower_o_is_output=True):
+    """the documented order of the registers on an entry page: the input values, then the output values"""
+    out = False
+    tagged = []
+    for reg in regs:
+        p = reg['prefix']
+        if p:
+            out = p[0] == 'O' or (lower_o_is_output and p[0] == 'o')
+        tagged.append((out, reg))
+    return [r for o, r in tagged if not o] + [r for o, r in tagged if o]
+
+
+def prefix_classes(regs):
+    """what a register section exercises of the prefix rules (for the vacuity counters)"""
+    cls = set()
+    fam = [('' if not r['prefix'] else 'i' if r['prefix'][0] in 'Ii' else 'o' if r['prefix'][0] in 'Oo' else 'x')
+           for r in regs]
+    out = False
+    seen_out = False
+    for i, (r, f) in enumerate(zip(regs, fam)):
+        p = r['prefix']
+        if p:
+            out = f == 'o'
+        seen_out = seen_out or out
+        if f == 'x':
+            cls.add('non-io')
+            cls.add('non-io-upper' if p[0].isupper() else 'non-io-lower')
+            if len(p) == 1:
+                cls.add('non-io-one-letter')
+            if i + 1 < len(regs) and not fam[i + 1]:
+                cls.add('unprefixed-after-non-io')
+            if seen_out:
+                cls.add('non-io-after-output')
+        elif f:
+            if p not in ('Input', 'In', 'I', 'Output', 'O'):
+                cls.add('io-other-form')
+            if p[0].islower():
+                cls.add('io-lower')
+        elif i == 0 and any(fam):
+            cls.add('unprefixed-first')
+        if seen_out and not out:
+            cls.add('back-to-input')
+    if len(set(r['prefix'] for r in regs if r['prefix'])) > 1:
+        cls.add('prefix-change')
+    if len(set(fam) - {''}) > 1:
+        cls.add('family-change')
+    return sorted(cls)
+
+
 def reg_avails(conf, regs):
     """columns left for the description behind each register name: (skool2asm, sna2skool). Used only to design
     inputs; the judgement measures the lines that come out."""
@@ -391,17 +459,40 @@ class DocGen:
         return self.around(self.table_design(table_target(cls, avail, top), wrap), avail, pos, delta)
 
     # -- registers -----------------------------------------------------------------------------
+    def free_prefix(self, families):
+        """a register prefix (without its colon) of one of the families: 'i' / 'o' = any word that begins with
+        I / O (either case), 'x' = a word that begins with any other letter (skool-files.rst: any colon-terminated
+        prefix; first letter O -> output value, any other letter -> input value)"""
+        rng = self.rng
+        fam = rng.choice(families)
+        if fam == 'i':
+            return rng.choice(IN_FORMS)
+        if fam == 'o':
+            return rng.choice(OUT_FORMS)
+        if rng.random() < 0.3:
+            return rng.choice(OTHER_WORDS)
+        n = rng.choice([1, 1, 2, 3, 4, 5, 6])
+        return rng.choice(OTHER_FIRST) + ''.join(rng.choice(PREFIX_TAIL) for _ in range(n - 1))
+
     def reg_heads(self, n, style):
         rng = self.rng
         regs = []
         mode_out = False
         for i in range(n):
             prefix = ''
-            if style != 'none' and (i == 0 or rng.random() < 0.4):
-                if not mode_out and i > 0 and rng.random() < 0.7:
-                    mode_out = True
-                names = {'long': ('Input', 'Output'), 'short': ('I', 'O'), 'mixed': ('In', 'O')}[style]
-                prefix = names[1] if mode_out else names[0]
+            if style in ('long', 'short', 'mixed'):
+                # the documented pairs; inputs first, then outputs
+                if i == 0 or rng.random() < 0.4:
+                    if not mode_out and i > 0 and rng.random() < 0.7:
+                        mode_out = True
+                    names = {'long': ('Input', 'Output'), 'short': ('I', 'O'), 'mixed': ('In', 'O')}[style]
+                    prefix = names[1] if mode_out else names[0]
+            elif style != 'none':
+                # free prefixes: the first register with or without one, unprefixed registers behind prefixed
+                # ones, the prefix (and with it the table) changing in mid list - also back from output to input
+                families = FREE_STYLES[style]
+                if rng.random() < (0.75 if i == 0 else 0.5):
+                    prefix = self.free_prefix(families)
             self.nreg += 1
             delim = None
             if rng.random() < 0.3:
@@ -410,13 +501,19 @@ class DocGen:
             else:
                 name = ['r%d%s' % (self.nreg, rng.choice(['', 'h', 'xy']))]
             regs.append(dict(prefix=prefix, delim=delim, name=name, para=None, cls='plain'))
+        # the documentation speaks of "the letter 'O'": whether a lower-case 'o' makes an output value is not
+        # stated. Such a prefix stays only where both readings give the same page (same order of the registers)
+        if html_order(regs, True) != html_order(regs, False):
+            for reg in regs:
+                if reg['prefix'][:1] == 'o':
+                    reg['prefix'] = 'O' + reg['prefix'][1:]
         return regs
 
     def registers(self):
         """random register section: plain descriptions, descriptions that end at / near the width left behind the
         register name, descriptions with #TABLE / #LIST blocks of widths around that width"""
         rng = self.rng
-        regs = self.reg_heads(rng.choice([0, 0, 1, 2, 3, 4]), rng.choice(['none', 'long', 'short', 'mixed']))
+        regs = self.reg_heads(rng.choice([0, 0, 1, 2, 3, 4, 5]), rng.choice(REG_STYLES))
         for reg, (aa, sa) in zip(regs, reg_avails(self.conf, regs)):
             r = rng.random()
             if r < 0.3:
@@ -440,7 +537,7 @@ class DocGen:
         every pair has a class in the band (available, line width - 2]), in 2 of 3 documents one of them with a :w
         column; and a list or a plain description that ends at / just short of that width"""
         rng = self.rng
-        regs = self.reg_heads(3, ['none', 'long', 'short', 'mixed'][s % 4])
+        regs = self.reg_heads(3, REG_STYLES[s % 8])
         top = self.conf['W'] - 2
         for i, (reg, (aa, sa)) in enumerate(zip(regs, reg_avails(self.conf, regs))):
             pos = POSITIONS[(s + i) % 4]
@@ -1051,14 +1148,11 @@ def exp_regs(it, regs, tool):
     words = []
     st = []
     tabs = []
+    pcls = prefix_classes(regs)
     if tool == 'html':
-        mode = 'I'
-        tagged = []
-        for reg in regs:
-            if reg['prefix']:
-                mode = reg['prefix'].upper()[0]
-            tagged.append((mode == 'O', reg))
-        regs = [r for o, r in tagged if not o] + [r for o, r in tagged if o]
+        # the page lists the input values, then the output values (a lower-case 'o' prefix is generated only
+        # where it makes no difference to this order: reg_heads)
+        regs = html_order(regs)
     for reg in regs:
         if tool == 'asm':
             head = list(reg['name'])
@@ -1077,7 +1171,7 @@ def exp_regs(it, regs, tool):
             # sna2skool wraps a register description as plain text: the tokens of the blocks, in order
             words.extend(flat(reg['para']))
     return dict(t='P', sec=3, w=it.codes(words, True), st=st, dotc=1 if tool in ('skool', 'gen') else 0, tabs=tabs,
-                k=0, ins=[], name='regs', cls=['reg:' + r['cls'] for r in regs])
+                k=0, ins=[], name='regs', cls=['reg:' + r['cls'] for r in regs], pcls=pcls)
 
 
 def expected(it, ent, tool):
